@@ -36,6 +36,17 @@ KNOWN_NEW_TAGS = "C12/new-codegen-tags-need-auto-config-name"
 KNOWN_MULTI_TAGS = "C12/auto-config-codegen-several-tags-on-one-argument"
 KNOWN_SPECIAL_FLOAT = "C12/special-floats-emitted-as-names"
 KNOWN_SUBFIXTURE_SHARING = "C12/sub-fixture-used-by-two-fixtures-loses-sharing"
+KNOWN_SYMBOL_KEYS = "C12/dict-keys-that-are-symbols-emitted-without-import"
+
+
+def has_symbol_key(root) -> bool:
+  import enum as enum_lib
+  for y in reach(root):
+    if isinstance(y, dict):
+      for k in y:
+        if isinstance(k, (enum_lib.Enum, type)) or (callable(k) and hasattr(k, "__qualname__")):
+          return True
+  return False
 
 
 def load_module(code, idx):
@@ -132,6 +143,8 @@ def gen_config(rng):
         v = rng.choice(EXTRA_LEAVES)
         if rng.random() < 0.3:
           v = {("t", 1): v, 2: [v]}
+        elif rng.random() < 0.1:
+          v = {rng.choice([l2.Color.RED, l2.fa, l2.Ka]): v}     # dict keys that are symbols
         try:
           setattr(b, rng.choice(names), copy.copy(v) if isinstance(v, (set, dict)) else v)
         except (AttributeError, TypeError):
@@ -237,6 +250,8 @@ def classify(root, gen, problem, rebuilt, subs):
   if ("NameError: name 'inf' is not defined" in problem or "NameError: name 'nan' is not defined" in problem) \
       and has_special_float(root):
     return KNOWN_SPECIAL_FLOAT
+  if "NameError: name 'harness' is not defined" in problem and has_symbol_key(root):
+    return KNOWN_SYMBOL_KEYS
   if rebuilt is not None:
     want, got = canon(root), canon(rebuilt)
     if relax_types(want) == relax_types(got):
